@@ -722,6 +722,13 @@ def guard_for_bounds(E, body, site):
     return None
 
 
+def _safe(chk, F, E, body, s):
+    try:
+        return chk(F, E, body, s)
+    except Exception:
+        return False
+
+
 def guard_option_just_filled(body, site):
     """`if p.is_none() { p = Some(..) }  match p { Some(x) => .., None => unreachable!() }`: the panic sits on the None arm
     of a match on an Option place that every path has just made Some."""
@@ -887,6 +894,18 @@ class Discharger:
                 return ("guard", g)
         row = self.rows.get(s.key)
         rkey = s.key
+        if row is None and "|" in s.key and "::{closure" in s.key.split("|", 1)[0]:
+            # the site sits in a closure of the function the row names (a loop body turned into `.map(|x| ..)`, an `if`
+            # turned into `.then(|| ..)`): it is still that function's site
+            fn, rest = s.key.split("|", 1)
+            pkey = fn.split("::{closure", 1)[0] + "|" + re.sub(r"#\d+$", "", rest)
+            prow = self.rows.get(pkey)
+            if prow is not None:
+                chk = prow.get("check")
+                pbody = self.F.bodies.get(fn.split("::{closure", 1)[0])
+                if chk is None or chk(self.F, self.E, body, s) or (pbody is not None and _safe(chk, self.F, self.E, pbody, s)):
+                    self.used_rows.add(pkey)
+                    return ("row:" + prow["inv"], prow["why"])
         if row is None and "|" in s.key:
             # the site may have moved into another method of the same type (a helper extracted from / inlined into the
             # function the row names): a row of the same type with the same site signature applies if -- and only if --
